@@ -13,8 +13,9 @@ import Dashu.Props.GenInt
   says, is the correspondence run over the table generated from the macro-expanded crate
   (`vlib/forms.py`: 1720 impls of dashu-int, every one called on every case; since round 3 also the
   212 impls of dashu-ratio and the 606 impls of dashu-float (at two (mode, base) instantiations, with the
-  `Context::op` method form at `Context::max` precision added by name) — for those only mutual agreement
-  is required here, their values belong to C03/C04).  (4) The trait-method forms `div_rem`,
+  `Context::op` method form at `Context::max` precision added by name) — since round 5 the driver computes
+  their common VALUE with the mirrored models of C03/C04 (`Driver/FormsMore.lean`, `Model/Forms/Float.lean`; theorems in
+  `Props/C15Values`, `Props/C15GenEuclid`, `Props/C15Link`)).  (4) The trait-method forms `div_rem`,
   `div_rem_euclid` are proved equal to the pair of operator forms.
 -/
 namespace Dashu.Props.C15
